@@ -253,6 +253,22 @@ func c16Run(r *core.Run) {
 	}
 	t := r.T
 	w := world.NewWorld(t, world.Cfg{Processor: 1, AuthLen: []int{0, -1, 5, 200}[t.Draw(4)], ExtraBytes: t.Draw(2) * 11})
+	if t.Chance(1, 4) {
+		// a TDX module version for which the served TCB Info lists no identity (a stale or differently shaped
+		// answer): the evaluation takes its not-found paths, which read the quote's TEE_TCB_SVN like any other
+		w.Quote.TeeTcbSvn[1] = byte(1 + t.Draw(3))
+		w.Quote.TeeTcbSvn[2] = byte(1 + t.Draw(250))
+		if t.Bool() {
+			w.Tcb.Modules = nil
+		} else {
+			for i := range w.Tcb.Modules {
+				w.Tcb.Modules[i].ID = fmt.Sprintf("TDX_%02d", 40+i)
+			}
+		}
+		w.Build(false)
+		w.Publish()
+		r.Probe("module_version_without_identity_in_tcb_info")
+	}
 	rawHonest := w.Quote.Bytes()
 	raw := poisoned(rawHonest, 64)
 	form := t.Draw(4)
